@@ -2,6 +2,7 @@ import Psa.MetricsCache
 import Psa.AdmitProps
 import Psa.AdmitCases
 import Psa.Metrics
+import Psa.Examples
 /-! # C18 — metrics count every decision exactly once, with bounded label values
 `Eff.metrics` is the list of Recorder calls of one request. -/
 namespace PSA.Props
@@ -158,6 +159,14 @@ theorem C18_stale_cache_witness :
     let k : List Str := [b!"create", b!"pod", b!""]
     MetricsCache.count (MetricsCache.inc (MetricsCache.resetKeepingCache (MetricsCache.inc (MetricsCache.init [k]) k)) k) k = 0 ∧
     (MetricsCache.specRun [] [.inc k, .reset, .inc k]).get k = 1 := MetricsCache.keepingCache_loses
+
+/-- non-vacuity: the denial of a privileged pod under enforce=restricted records exactly one enforce evaluation (deny), one
+    audit denial and no warning denial (denied requests carry no warning); the exempt-runtime-class pod records one exemption -/
+example : (validatePod parseVersion Ex.cfg (Ex.world Ex.restrictedLabels) (Ex.podCreate Ex.privPod)).2.metrics =
+    [.eval false ⟨.restricted, .mm 1 25⟩ 0, .eval false ⟨.baseline, .latest⟩ 1] ∧
+    (validatePod parseVersion Ex.cfg (Ex.world Ex.restrictedLabels) (Ex.podCreate Ex.kataPod)).2.metrics = [.exemption] := by decide +kernel
+example : versionLabel (.mm 1 30) ⟨.restricted, .mm 1 25⟩ = b!"v1.25" ∧ versionLabel (.mm 1 30) ⟨.restricted, .mm 1 99⟩ = b!"future" ∧
+    versionLabel (.mm 1 30) ⟨.privileged, .mm 1 99⟩ = b!"latest" := by decide +kernel
 
 #print axioms C18_pod
 #print axioms C18_controller
